@@ -96,6 +96,9 @@ func init() {
 		Mutant{Prop: "C10", Name: "restart-after-finalization-keeps-stored-round", File: fSM, Func: "StateMachine.sendInitialActionSet",
 			Find: `h\+\+\n\t\tr = 0\n`, Repl: "h++\n", Expect: []string{"C10.3"}},
 
+		Mutant{Prop: "C10", Name: "replayed-header-refused-when-recorded", File: "tm/tmstore/tmmemstore/roundstore.go", Func: "RoundStore.SaveRoundReplayedHeader",
+			Find: `(\ts\.replayedHeaders\[h\.Height\] = append)`, Repl: "\tfor _, rh := range s.replayedHeaders[h.Height] {\n\t\tif string(rh.Hash) == string(h.Hash) {\n\t\t\treturn tmstore.OverwriteError{Field: \"hash\"}\n\t\t}\n\t}\n$1", Expect: []string{"C10.6"}},
+
 		// ---- C11
 		Mutant{Prop: "C11", Name: "round-entrance-keeps-queued-jump-ahead", File: fSMVM, Func: "stateMachineViewManager.Reset",
 			Find: `m\.jumpAhead = nil`, Repl: "if m.jumpAhead != nil && m.jumpAhead.Round < re.R {\n\t\tm.jumpAhead = nil\n\t}", Expect: []string{"C11.4"}},
@@ -115,6 +118,8 @@ func init() {
 			Find: `if len\(sparseSig\.KeyID\) != 2 \{`, Repl: `if len(sparseSig.KeyID) > 2 {`, Expect: []string{"C13.2"}},
 		Mutant{Prop: "C13", Name: "key-id-checker-admits-one-past-the-end", File: fSimple, Func: "beUint16KeyLenIDChecker.IsValid",
 			Find: `idx < c\.nKeys`, Repl: "idx <= c.nKeys", Expect: []string{"C13.2"}},
+		Mutant{Prop: "C13", Name: "known-signer-accepted-without-verification", File: fSimple, Func: "SimpleCommonMessageSignatureProof.AddSignature",
+			Find: `(\tif !key\.Verify\(p\.msg, sig\) \{)`, Repl: "\tif p.bitset.Test(uint(keyIdx)) {\n\t\treturn nil\n\t}\n$1", Expect: []string{"C13.1"}},
 		Mutant{Prop: "C13", Name: "failed-add-keeps-all-valid-flag", File: fSimple, Func: "SimpleCommonMessageSignatureProof.MergeSparse",
 			Find: `(if err := p\.AddSignature\(sparseSig\.Sig, key\); err != nil \{\n)\t\t\tres\.AllValidSignatures = false\n`, Repl: "$1", Expect: []string{"C13.4"}},
 
@@ -131,6 +136,9 @@ func init() {
 		Mutant{Prop: "C14", Name: "precommit-proof-encoded-without-key-hash", File: fCodec, Func: "MarshalCodec.MarshalPrecommitProof",
 			Find: `PubKeyHash: \[\]byte\(p\.PubKeyHash\),`, Repl: "PubKeyHash: nil,", Expect: []string{"C14.1"}},
 
+		Mutant{Prop: "C14", Name: "next-validators-decoded-from-current-set", File: fJSON, Func: "jsonHeader.ToHeader",
+			Find: `Validators:    nextValidators,`, Repl: "Validators:    validators,", Expect: []string{"C14.1"}},
+
 		// ---- C15
 		Mutant{Prop: "C15", Name: "data-id-not-hashed", File: fHash, Func: "SimpleHashScheme.Block",
 			Find: `\t\th\.DataID,\n\t\th\.PrevAppStateHash,\n`, Repl: "\t\th.PrevAppStateHash,\n\t\th.PrevAppStateHash,\n", Expect: []string{"C15.1"}},
@@ -140,6 +148,9 @@ func init() {
 			Find: `(?s)\tsort\.Slice\(prevCommitBlocks, func\(i, j int\) bool \{.*?\n\t\}\)\n`, Repl: "", Expect: []string{"C15.2"}},
 		Mutant{Prop: "C15", Name: "nil-prevote-shares-prevote-label", File: fSig, Func: "",
 			Find: "NIL PREVOTE:", Repl: "PREVOTE:", Expect: []string{"C15.5"}},
+
+		Mutant{Prop: "C15", Name: "sort-comparator-mixes-fields", File: fHash, Func: "SimpleHashScheme.Block",
+			Find: `prevCommitBlocks\[i\]\.key < prevCommitBlocks\[j\]\.key`, Repl: "prevCommitBlocks[i].raw < prevCommitBlocks[j].key", Expect: []string{"C15.2"}},
 
 		// ---- C16
 		Mutant{Prop: "C16", Name: "writer-under-read-lock", File: fAStore, Func: "ActionStore.SavePrecommitAction",
@@ -162,6 +173,9 @@ func init() {
 		Mutant{Prop: "C17", Name: "diff-stops-after-first-changed-part", File: fChatty, Func: "ChattyStrategy.broadcastUpdatesOnly",
 			Find: `(?s)(if len\(cur\.ProposedHeaders\) != len\(prev\.ProposedHeaders\) \{\n)\t\tif !s\.broadcastProposedBlocks\(ctx, cur\) \{\n\t\t\treturn false\n\t\t\}\n`, Repl: "${1}\t\treturn s.broadcastProposedBlocks(ctx, cur)\n", Expect: []string{"C17.3"}},
 
+		Mutant{Prop: "C17", Name: "precommit-change-test-on-vote-power", File: fChatty, Func: "ChattyStrategy.broadcastUpdatesOnly",
+			Find: `if curPrecommitCount != prevPrecommitCount \{`, Repl: "if cur.VoteSummary.TotalPrecommitPower != prev.VoteSummary.TotalPrecommitPower {", Expect: []string{"C17.3"}},
+
 		// ---- C18
 		Mutant{Prop: "C18", Name: "majority-off-by-one-for-remainder-two", File: fMath, Func: "ByzantineMajority",
 			Find: `if rem < 2 \{`, Repl: `if rem < 3 {`, Expect: []string{"C18.1", "C18.4"}},
@@ -180,6 +194,9 @@ func init() {
 		Mutant{Prop: "C19", Name: "add-always-against-base-state", File: fWS, Func: "workingState.CheckAddTx",
 			Find: `cur = w\.curState`, Repl: `cur = w.BaseState`, Expect: []string{"C19.1"}},
 
+		Mutant{Prop: "C19", Name: "readers-share-the-pending-list", File: fWS, Func: "workingState.Buffered",
+			Find: `dst = append\(dst, w\.Txs\.\.\.\)\n\treturn dst`, Repl: "if len(dst) == 0 {\n\t\treturn w.Txs[:len(w.Txs):len(w.Txs)]\n\t}\n\tdst = append(dst, w.Txs...)\n\treturn dst", Expect: []string{"C19.4"}},
+
 		// ---- C20
 		Mutant{Prop: "C20", Name: "unknown-feedback-accepted", File: fLibp2p, Func: "Connection.exchangeFeedbackToLibp2p",
 			Find: `(?s)(default:\n.*?)return pubsub\.ValidationIgnore`, Repl: "${1}return pubsub.ValidationAccept", Expect: []string{"C20.1"}},
@@ -197,6 +214,9 @@ func init() {
 			Find: `rlc\.S = tsi\.StepAwaitingPrecommits\n`, Repl: "rlc.S = tsi.StepAwaitingPrevotes\n", Expect: []string{"C08.1", "C08.2"}},
 		Mutant{Prop: "C08", Name: "height-advance-without-finalization", File: fSM, Func: "StateMachine.handleTimerElapsed",
 			Find: `if len\(rlc\.FinalizedValSet\.Validators\) == 0 \{`, Repl: `if false {`, Expect: []string{"C08.5"}},
+
+		Mutant{Prop: "C08", Name: "deferred-finalize-selects-header-by-prevote-hash", File: fSM, Func: "StateMachine.handleCommitWaitViewUpdate",
+			Find: `(?s)(pbIdx = slices\.IndexFunc\(vrv\.ProposedHeaders.*?)MostVotedPrecommitHash`, Repl: "${1}MostVotedPrevoteHash", Expect: []string{"C08.3"}},
 
 		// ---- C12
 		Mutant{Prop: "C12", Name: "prevote-delay-timeout-keeps-timer-fields", File: fSM, Func: "StateMachine.handleTimerElapsed",
